@@ -739,7 +739,7 @@ class C19(RecCheck):
         return {'runs': 700, 'time': 60.0, 'run_cap': 300.0, 'selftest': 12}
 
     def gen(self, rng, tier):
-        plan = R.gen_rec_plan(rng, tier, small=False, extra_k={'prefix_sibling': 0.4})
+        plan = R.gen_rec_plan(rng, tier, small=False, extra_k={'prefix_sibling': 0.4, 'default_units': 0.5})
         # a component that overrides System.load_case (documented hook) in a third of the plans, preferably the
         # one whose name is a string prefix of a sibling's
         w = plan['world']
